@@ -542,6 +542,14 @@ def forked_part_b(ctx, ncreate, peak_target, rng, oracle_only=False, stop_at=Non
 
 # ---------------------------------------------------------------- entry points
 
+def translators(ctx):
+    """Generated/ClosureSteps.lean: statement lists of cffi_closure_alloc / cffi_closure_free / more_core's loop, re-extracted from the working tree."""
+    sys.path.insert(0, os.path.join(common.VERIF, "translate"))
+    import c29_steps
+    return [c29_steps.run]
+
+
+
 def tagged_rng(tag):
     r = random.Random(tag)
     r.verif_tag = tag
